@@ -177,6 +177,9 @@ func (e *executableWorkflow) Execute(ctx context.Context, serializedInput any) (
 		e.logger.Debugf("Launching step %s...", stepID)
 		runningStep, err := runnableStep.Start(e.stepRunData[stepID], stepID, stageHandler)
 		if err != nil {
+			// Release the lock and close the steps that were already launched so they don't keep running.
+			l.lock.Unlock()
+			l.terminateAllSteps()
 			return "", nil, fmt.Errorf("failed to launch step %s (%w)", stepID, err)
 		}
 		l.runningSteps[stepID] = runningStep
